@@ -28,6 +28,15 @@ Theorem C13_reconnect_never_lost : forall k x,
 Proof. exact reconnect_never_lost. Qed.
 Print Assumptions C13_reconnect_never_lost.
 
+(* ... and the reconnect machinery is never stuck: with a reconnect pending and no task in the middle of a step, one of
+   its steps (connect() entry, attempt outcome, back-off timer, end of the status callback / cancel wait, the fault
+   handler leaving the status callback) is enabled *)
+Theorem C13_reconnect_progress : forall k x,
+  reachable k true true true x -> busy x = false -> reconnect_pending x ->
+  exists a y, reconnect_step a /\ trans k true true true x a = Some y.
+Proof. exact reconnect_progress_reachable. Qed.
+Print Assumptions C13_reconnect_progress.
+
 Theorem C13_lock_iff_connect_running : forall k x,
   reachable k true true true x -> (lock x = true <-> hold x <> HNone).
 Proof. exact lock_iff_holder. Qed.
